@@ -17,6 +17,19 @@ def main():
     except ModuleNotFoundError as e:
         print("TOOL-ERROR: no check for %s (%s)" % (pid, e))
         return 2
+    # watchdog: a check never hangs for ever (a call into the code under test that does not return would otherwise block it);
+    # the limit is far above the longest measured run of the tier (quick: 2 min, thorough: 55 min)
+    import threading, faulthandler
+    limit = {"quick": 45 * 60, "thorough": 6 * 3600}.get(mode, 30 * 60)
+
+    def expire():
+        sys.stderr.write("TOOL-ERROR: %s %s did not finish within %d s; stacks follow\n" % (pid, mode, limit))
+        faulthandler.dump_traceback(file=sys.stderr)
+        print("TOOL-ERROR: watchdog: check did not finish within %d s" % limit, flush=True)
+        os._exit(2)
+    wd = threading.Timer(limit, expire)
+    wd.daemon = True
+    wd.start()
     try:
         env.build()
         if mode == "--replay":
